@@ -1505,6 +1505,8 @@ class XsdAtomicRestriction(XsdAtomic):
         if self.is_list():
             if not hasattr(obj, '__iter__') or isinstance(obj, (str, bytes)):
                 obj = [] if obj is None or obj == '' else [obj]
+            elif not isinstance(obj, list):
+                obj = list(obj)  # the facets of the restriction count the items
         elif isinstance(obj, (str, bytes)):
             obj = self.normalize(obj)
 
